@@ -23,10 +23,13 @@ CliA == {<<"convert", <<>>>>, <<"sync", <<-20>>>>, <<"sync", <<0>>>>, <<"merge",
 CliOuts == {"o.srt", "o.stl", "o.txt", "p.ssa"}
 
 None == [kind |-> "none", f |-> "", g |-> ""]
-Init == /\ \E q \in Lists : disk = [f \in Sources |-> [fmt |-> Ext[f], cues |-> q, fps |-> IF f = "in.stl" THEN 30 ELSE 0]]
+\* the STL source has a programme start of 40 units: its raw instants lie 40 later
+Shift(q, d) == [i \in DOMAIN q |-> [q[i] EXCEPT !.s = @ + d, !.e = @ + d]]
+Init == /\ \E q \in Lists : disk = [f \in Sources |-> [fmt |-> Ext[f], cues |-> q, fps |-> IF f = "in.stl" THEN 30 ELSE 0,
+                                                     raw |-> IF f = "in.stl" THEN Shift(q, 40) ELSE q]]
         /\ mem = <<>> /\ fps = 0 /\ res = "ok" /\ written = {} /\ last = None /\ steps = 0
 
-DoOpen == \E f \in Files : Open(f, Ext[f]) /\ last' = [kind |-> "open", f |-> f, g |-> ""] /\ UNCHANGED written
+DoOpen == \E f \in Files, opt \in BOOLEAN : Open(f, Ext[f], opt) /\ last' = [kind |-> "open", f |-> f, g |-> ""] /\ UNCHANGED written
 DoApply == \E o \in OpsA : /\ last.kind \in {"open", "apply"} /\ Apply(o[1], o[2], <<>>) /\ NonNegative(mem')
                            /\ last' = [kind |-> "apply", f |-> last.f, g |-> ""] /\ UNCHANGED written
 DoWrite == \E g \in Outs : /\ Write(g, Ext[g]) /\ last' = [kind |-> "write", f |-> last.f, g |-> g]
@@ -59,7 +62,7 @@ FailedWriteBlank == [][(last'.kind = "write" /\ res' # "ok") => disk'[last'.g] =
 \* converting a file the tool wrote to its own format (same frame rate) reproduces it: truncation is idempotent
 Reconvert ==
   [][(last'.kind = "write" /\ res' = "ok" /\ last.kind = "open" /\ last.f \in written /\ last.f # last'.g
-        /\ disk[last.f].fmt = Ext[last'.g]) => disk'[last'.g] = disk[last.f]]_vars
+        /\ disk[last.f].fmt = Ext[last'.g] /\ mem = disk[last.f].cues) => disk'[last'.g] = disk[last.f]]_vars
 \* the tool is Open ; Apply ; Write: it changes at most its output file, and never its input unless they coincide
 CliTouchesOnlyOutput == [][last'.kind = "cli" => \A f \in DOMAIN disk : f # last'.g => disk'[f] = disk[f]]_vars
 \* the extension is examined before the list: an unsupported one is reported even for an empty list
